@@ -79,14 +79,15 @@ def gen(tier, rng):
     out = [('offload%05d' % i, gen_offload_script(rng)) for i in range(n // 8)] + [('longrun%05d' % i, gen_longrun_script(rng)) for i in range(max(3, n // 40))]
     for i in range(n):
         # small filter groups and 3-5 keys spread over the key space: closing blobs merges ranges that grow on both sides
-        g = Gen(rng, queries=('R', 'C', 'RD', 'RW'), maint=0.45, restart=0.05, bg=0.03, deletes=0.15,
+        g = Gen(rng, queries=('R', 'C', 'RD', 'RW'), counts=True, maint=0.45, restart=0.05, bg=0.03, deletes=0.15,
                 nops=rng.randrange(8, 26), group=rng.choice([2, 2, 2, 3, 8]), nkeys=rng.choice([3, 4, 5]))
         out.append(('hist%05d' % i, g.build()))
     return out
 
 
 def oracle(lines, io, spec=None):
-    fails = C.spec_oracle(lines, io, spec, ('R', 'C', 'RD', 'RW'))
+    # the counters are queries too: moving an index between memory and disk must not change them
+    fails = C.spec_oracle(lines, io, spec, ('R', 'C', 'RD', 'RW', 'counts'))
     # the storage keeps accepting writes and deletes
     restored = False
     for i, (l, o) in enumerate(zip(lines, io)):
